@@ -47,6 +47,18 @@ static mt_mtx_t _mtx[1];			/*< мьютекс */
 static bool_t _inited;				/*< флаг инициализации */
 static util_onexit_t* _fns;			/*< список декструкторов */
 
+#ifdef BEE2_VERIF
+/* verification hook: restore the file-scope statics to their load-time values
+   (see /verif/DESIGN.md, H-reset) */
+void utilVerifReset()
+{
+	_once = 0;
+	memSetZero(_mtx, sizeof(_mtx));
+	_inited = FALSE;
+	_fns = 0;
+}
+#endif
+
 static void utilOnExitRun(void)
 {
 	size_t pos;
